@@ -144,10 +144,24 @@ pub fn v_edge(full: bool) -> Vec<Named> {
     v.push(n("safe'a'", "safe_str", Value::from_safe_string("a".into())));
     v.push(n("safe'<b>'", "safe_str", Value::from_safe_string("<b>".into())));
     v.push(n("arcstr'a'", "str", Value::from(Arc::<str>::from("a"))));
+    // strings that storage tricks could confuse: trailing / embedded NULs, the inline-storage boundary
+    // (22 bytes), multi-byte text; each also in a second storage form
+    v.push(n("'a\\0'", "str", Value::from("a\0")));
+    v.push(n("'\\0'", "str", Value::from("\0")));
+    v.push(n("'a\\0\\0'", "str", Value::from("a\0\0")));
+    v.push(n("arcstr'a\\0'", "str", Value::from(Arc::<str>::from("a\0"))));
+    v.push(n("safe'a\\0'", "safe_str", Value::from_safe_string("a\0".into())));
+    v.push(n("'a'x22", "str", Value::from("a".repeat(22))));
+    v.push(n("'a'x23", "str", Value::from("a".repeat(23))));
+    v.push(n("'a'x22+'\\0'", "str", Value::from(format!("{}\0", "a".repeat(22)))));
+    v.push(n("'\u{e9}'", "str", Value::from("\u{e9}")));
+    v.push(n("'a\u{ff}'", "str", Value::from("a\u{ff}")));
     // bytes
     v.push(n("b''", "bytes", Value::from_bytes(vec![])));
     v.push(n("b'a'", "bytes", Value::from_bytes(b"a".to_vec())));
     v.push(n("b'ab'", "bytes", Value::from_bytes(b"ab".to_vec())));
+    v.push(n("b'a\\0'", "bytes", Value::from_bytes(b"a\0".to_vec())));
+    v.push(n("b'\\xff'", "bytes", Value::from_bytes(vec![0xff])));
     // lists
     let l = |xs: Vec<Value>| Value::from(xs);
     v.push(n("[]", "list", l(vec![])));
